@@ -183,6 +183,7 @@ Property prop_C04(const std::string& variant) {
         o.lattice_bias = true;
         o.vp_anywhere = true;
         o.max_methods = 8;
+        o.many_methods = true;
         o.max_defs = 6;
         o.canonical_presentation = false;
         c.spec = gen_spec(ch, o, size);
